@@ -10,14 +10,18 @@ documented interface; each is evaluated on seismic_zfp.open(sgz) and on segyio.o
     ('rejected',)                                     KeyError / IndexError / ValueError
  * direct oracle (R.violation 'oracle'): observation(emulator) == observation(segyio); every sample array the emulator
    returns is bit-identical to the corresponding slice of the SGZ's own decoded volume (SgzReader.read_volume());
-   header dictionaries are equal to segyio's; subvolume[a:b:c, ...] equals the numpy slice of the decoded volume
-   selected by coordinates.
+   header dictionaries are equal to segyio's; subvolume[a:b:c, ...] (axes of either direction, explicit bounds, the
+   one-past-the-end stop, steps that are multiples of the increment in axis order, bounds that are exactly 0 on axes
+   running through zero) equals the numpy slice of the decoded volume selected by coordinates AND, to within this file's
+   codec error, segyio's own lines iline[k] for k in range(start, stop, step) cut at the crossline / sample coordinates;
+   bounds that are no coordinates of the axis are rejected.
  * correspondence (R.violation 'corr'): the Coq terms (Gen/Accessors.v = emulator, Model/Accessors.v = hand model of
    segyio) evaluated by vm_compute on the same axis and slice give the same key lists as the two implementations;
    this validates the hand model of segyio on every run (also outside the documented grammar).
  * guards: line slices are classified with the same predicates as the theorem (line_slice_ok, oracle_ok, evaluated
    in Coq); outside the grammar only the correspondence is demanded.  Known findings: D25 (integer subscript of
-   attributes()), D24 residue (EBCDIC table), D27 (subvolume refuses explicit bounds on a descending axis).
+   attributes()), D24 residue (EBCDIC table).  (D27-subvolume, explicit bounds on a descending axis refused, is repaired:
+   such expressions are checked like every other one.)
 """
 import os, sys, itertools
 sys.path.insert(0, os.path.dirname(os.path.abspath(__file__)))
@@ -92,6 +96,9 @@ def parse_outcome(s):
 class Cube:
     def __init__(self, k, il, xl, ns, t0, dt_us):
         self.il, self.xl, self.ns, self.t0, self.dt_us = il, xl, ns, t0, dt_us
+        # segyio reads negative line numbers in slices / iteration Python-style (from the end): for a cube with negative
+        # line numbers only the expressions whose oracle does not go through segyio's slicing are run (subvolume, dt, cube)
+        self.sub_only = min(il[0], il[0] + (il[2] - 1) * il[1], xl[0], xl[0] + (xl[2] - 1) * xl[1]) < 0
         self.ilines = [il[0] + i * il[1] for i in range(il[2])]
         self.xlines = [xl[0] + i * xl[1] for i in range(xl[2])]
         self.name = f'il{il[0]}:{il[1]}x{il[2]}_xl{xl[0]}:{xl[1]}x{xl[2]}_ns{ns}_t{t0}_dt{dt_us}'
@@ -319,6 +326,19 @@ def text_agree_set():
 AGREE, SEGYIO_E2A = text_agree_set()
 
 
+def gen_valid_axis(ax):
+    """a slice of the documented form on one axis (either direction): start a coordinate, stop a later coordinate or the
+    one-past-the-end value, step a multiple of the increment in axis order (negative on a descending axis)"""
+    inc = ax[1] - ax[0]
+    past = ax[-1] + inc
+    i0 = rng.randrange(0, len(ax))
+    i1 = rng.randrange(i0 + 1, len(ax) + 1)
+    m = rng.choice([None, 1, 1, 2, 3])
+    st = None if (rng.random() < 0.3) else ax[i0]
+    sp = None if (rng.random() < 0.3) else (ax[i1] if i1 < len(ax) else past)
+    return (st, sp, None if m is None else m * inc)
+
+
 def gen_sub(axes):
     """a coordinate-slice triple for subvolume[...]: mostly valid coordinates, sometimes one axis out of range"""
     t3 = []
@@ -326,19 +346,14 @@ def gen_sub(axes):
         inc = ax[1] - ax[0]
         past = ax[-1] + inc
         if rng.random() < 0.88:                     # valid coordinates
-            i0 = rng.randrange(0, len(ax))
-            i1 = rng.randrange(i0 + 1, len(ax) + 1)
-            m = rng.choice([None, 1, 1, 2, 3])
-            st = None if (rng.random() < 0.3) else ax[i0]
-            sp = None if (rng.random() < 0.3) else (ax[i1] if i1 < len(ax) else past)
-            t3.append((st, sp, None if m is None else m * inc))
+            t3.append(gen_valid_axis(ax))
         else:                                       # a bound that is no coordinate of the axis / outside / a bad step
             which = rng.choice(['start_out', 'stop_out', 'step_bad', 'start_off'])
             lo, hi = min(ax), max(ax)
             if which == 'start_out':
                 t3.append((rng.choice([lo - abs(inc), hi + abs(inc), lo - 1]), None, None))
-            elif which == 'stop_out':
-                t3.append((None, rng.choice([hi + 2 * abs(inc), lo - abs(inc), ax[0]]) if inc > 0 else hi + 2 * abs(inc), None))
+            elif which == 'stop_out':               # the first coordinate, before it, beyond the one-past-the-end value
+                t3.append((None, rng.choice([ax[0], ax[0] - inc, past + inc]), None))
             elif which == 'step_bad' and abs(inc) > 1:
                 t3.append((None, None, inc + 1))
             else:
@@ -346,11 +361,80 @@ def gen_sub(axes):
     return t3
 
 
+def systematic_axis(ax):
+    """the slices that matter on ONE axis, whatever its direction: every presence combination of start / stop / step on
+    boundary ordinal pairs, bounds that are exactly 0 (an explicit 0 is a bound, not "absent"), and the rejections"""
+    n = len(ax)
+    inc = ax[1] - ax[0]
+    past = ax[-1] + inc
+    sgn = 1 if inc > 0 else -1
+    out = []
+    pairs = {(0, n), (0, 1), (n - 1, n), (1, n), (0, n - 1), (n // 2, n), (rng.randrange(0, n - 1), None)}
+    for i0, i1 in sorted(pairs, key=str):
+        if i1 is None:
+            i1 = rng.randrange(i0 + 1, n + 1)
+        if not i0 < i1:
+            continue
+        sp_val = ax[i1] if i1 < n else past
+        for st, sp in ((ax[i0], sp_val), (ax[i0], None), (None, sp_val)):
+            for m in (None, 1, 2, 3):
+                out.append(((st, sp, None if m is None else m * inc), 'valid'))
+    # an explicit bound of 0: start 0 (also when 0 is not the first coordinate), stop 0 (a coordinate or the
+    # one-past-the-end value), each with the step given and omitted
+    if 0 in ax:
+        z = ax.index(0)
+        later = [ax[q] for q in range(z + 1, n)] + [past]
+        for sp in (None, later[0], later[-1]):
+            for k in (None, inc, 2 * inc):
+                out.append(((0, sp, k), 'zero'))
+        if z > 0:
+            for st in (None, ax[0], ax[z - 1]):
+                for k in (None, inc, 2 * inc):
+                    out.append(((st, 0, k), 'zero'))
+    if past == 0:
+        for st in (None, ax[0], ax[-1]):
+            for k in (None, inc, 2 * inc):
+                out.append(((st, 0, k), 'zero'))
+    # rejections: a start before the first / at or beyond the one-past-the-end value, a stop at or before the first
+    # coordinate / beyond the one-past-the-end value, coordinates between the lines, a step that is no multiple
+    for st in (ax[0] - inc, past, past + inc):
+        out.append(((st, None, None), 'reject'))
+        out.append(((st, ax[-1], inc), 'reject'))
+    for sp in (ax[0], ax[0] - inc, past + inc):
+        out.append(((None, sp, None), 'reject'))
+        out.append(((ax[0], sp, inc), 'reject'))
+    if abs(inc) > 1:
+        out.append(((ax[0] + sgn, None, None), 'reject'))
+        out.append(((ax[1] + sgn, ax[-1], inc), 'reject'))
+        out.append(((None, ax[-1] + sgn, None), 'reject'))
+        out.append(((ax[0], ax[1] + sgn, inc), 'reject'))
+        out.append(((None, None, inc + sgn), 'reject'))
+        out.append(((ax[0], past, 2 * inc + sgn), 'reject'))
+    return out
+
+
+def systematic_sub(axes, per_axis):
+    """subvolume triples that vary one axis systematically (the other two take random slices of the documented form)"""
+    cases = []
+    for which, ax in enumerate(axes):
+        alls = systematic_axis(ax)
+        keep = [t for t in alls if t[1] != 'valid']
+        val = [t for t in alls if t[1] == 'valid']
+        if per_axis is not None and len(val) > per_axis:
+            val = rng.sample(val, per_axis)
+        for t, tag in keep + val:
+            t3 = [gen_valid_axis(o) for o in axes]
+            t3[which] = t
+            cases.append(t3)
+    return cases
+
+
 def classify_sub(t3, axes):
-    """the documented meaning of subvolume[a:b:c] per axis: coordinates a (default first) up to b exclusive (default one
-    past the last), every c/increment-th (c a positive multiple of the increment in axis order).
-    -> (numpy slices into the decoded volume or None, expected rejection, explicit bound on a descending axis)"""
-    want, expect_rej, desc_explicit = [], False, False
+    """the documented meaning of subvolume[a:b:c] per axis, for an axis of either direction: coordinates a (default
+    first) up to b exclusive (default one increment past the last), every c/increment-th (c a multiple of the increment
+    in axis order: negative on a descending axis).
+    -> (numpy slices into the decoded volume or None, expected rejection, the coordinates selected per axis)"""
+    want, expect_rej, sel = [], False, []
     for (st, sp, k), ax in zip(t3, axes):
         inc = ax[1] - ax[0]
         past = ax[-1] + inc
@@ -361,11 +445,23 @@ def classify_sub(t3, axes):
         if not ok or i0 is None or i1 is None or i0 >= i1:
             expect_rej = True
             want.append(None)
+            sel.append(None)
             continue
         want.append(slice(i0, i1, 1 if k is None else k // inc))
-        if inc < 0 and (st is not None or sp is not None):
-            desc_explicit = True
-    return want, expect_rej, desc_explicit
+        # Python's range over COORDINATES: independent of the ordinal arithmetic above
+        sel.append(list(range(ax[0] if st is None else st, past if sp is None else sp, inc if k is None else k)))
+    return want, expect_rej, sel
+
+
+def segyio_subvolume(s, sel):
+    """segyio's equivalent of subvolume[...]: its own inlines with the selected NUMBERS, cut at the selected crossline
+    numbers and sample times, located on segyio's own axes"""
+    xl_ax = [int(v) for v in s.xlines]
+    z_ax = [int(round(float(v))) for v in s.samples]
+    planes = np.stack([np.array(s.iline[int(k)], copy=True) for k in sel[0]])
+    xi = [xl_ax.index(x) for x in sel[1]]
+    zi = [z_ax.index(t) for t in sel[2]]
+    return planes[:, xi][:, :, zi]
 
 
 def parse_int_or_none(x):
@@ -421,6 +517,9 @@ def run_cube(k, c, only=None):
             progs += ordinal_programs(c, name)
         progs += attribute_programs(c)
         progs += [('attr', x) for x in ('ilines', 'xlines', 'samples', 'tracecount')] + [('bin',), ('text',), ('text_len',)]
+        if c.sub_only:
+            progs = []
+            R.count('cube_with_negative_line_numbers_subvolume_only')
         if only is not None:
             progs = [q for q in (parse_expr(e) for e in only) if q is not None]
         for prog in progs:
@@ -547,13 +646,16 @@ def run_cube(k, c, only=None):
         if err > 1e-2:
             R.notes.append(f'{c.name}: decoded volume differs from the source by {err:.3g} relative')
 
-        # ---- subvolume (emulator only; the oracle is the decoded volume sliced by coordinates)
+        # ---- subvolume (oracle: the decoded volume sliced by coordinates; segyio's own lines at those coordinates)
         zs = [int(v) for v in np.asarray(z.samples)]
         axes = [c.ilines, c.xlines, zs]
-        sub_cases = [gen_sub(axes) for _ in range(25 if quick else 250)] if only is None else \
-            [parse_sub(e) for e in only if e.startswith('subvolume[')]
+        tol = float(np.max(np.abs(c.vol - c.data))) * 1.0001 + 1e-30
+        if only is None:
+            sub_cases = systematic_sub(axes, 10 if quick else None) + [gen_sub(axes) for _ in range(25 if quick else 250)]
+        else:
+            sub_cases = [parse_sub(e) for e in only if e.startswith('subvolume[')]
         for t3 in sub_cases:
-            want, expect_rej, desc_explicit = classify_sub(t3, axes)
+            want, expect_rej, sel = classify_sub(t3, axes)
             expr = 'subvolume[' + ', '.join(slstr(t) for t in t3) + ']'
             inp = {'cube': cube, 'expr': expr}
             try:
@@ -564,23 +666,36 @@ def run_cube(k, c, only=None):
             R.count('subvolume')
             term = f'sub_getitem {coq_list(c.ilines)} {coq_list(c.xlines)} {coq_list(zs)} {coq_slice(t3[0])} {coq_slice(t3[1])} {coq_slice(t3[2])}'
             corr_terms.append((term, ('subvol', og), inp, 'emulator'))
+            for (st, sp, kk), ax in zip(t3, axes):
+                if ax[1] - ax[0] < 0 and (st is not None or sp is not None):
+                    R.count('subvolume_descending_explicit' + ('_rejected' if expect_rej else ''))
+                    if kk is not None and kk < 0 and not expect_rej:
+                        R.count('subvolume_descending_explicit_negative_step')
+                if (st == 0 or sp == 0) and not expect_rej:
+                    R.count('subvolume_bound_exactly_zero')
+                    if sp == 0 or ax.index(0) > 0:
+                        R.count('subvolume_bound_exactly_zero_not_first_coordinate')
             if expect_rej:
                 R.case((c.name, expr))
                 R.count('subvolume_rejected')
                 if og != REJ:
                     R.violation('oracle', inp, f'coordinates outside the axes accepted: {og}')
                 continue
-            if desc_explicit:
-                R.count('subvolume_descending_explicit')
-                R.case((c.name, expr), nontrivial=False)
-                exp = c.vol[want[0], want[1], want[2]]
-                if got is None or not bits_equal(got, exp):
-                    known('D27-subvolume-descending-bounds-refused', inp, f'explicit bounds on a descending axis: {og}, expected shape {exp.shape}')
-                continue
             R.case((c.name, expr))
             exp = c.vol[want[0], want[1], want[2]]
             if got is None or not bits_equal(got, exp):
                 R.violation('oracle', inp, f'got {og}, expected the decoded volume sliced {want} (shape {exp.shape})')
+                continue
+            # segyio has no subvolume; its equivalent is built from its lines at the same coordinates
+            try:
+                seg = segyio_subvolume(s, sel)
+            except Exception as e:
+                R.violation('oracle', inp, f'segyio has no lines / samples at the coordinates {sel}: {type(e).__name__} {e}')
+                continue
+            R.count('subvolume_vs_segyio')
+            if seg.shape != got.shape or not np.all(np.abs(seg.astype(np.float64) - got.astype(np.float64)) <= tol):
+                R.violation('oracle', inp, f'differs from segyio\'s lines at the coordinates {sel}: shapes {seg.shape} {got.shape}, '
+                                           f'codec error bound of this file {tol:.3g}')
     return len(R.violations) - nviol0
 
 
@@ -592,7 +707,9 @@ def cubes():
            ((0, 2, 3), (7, 1, 7), 16, 8, 4000),            # inline number 0 on an ascending axis
            ((100, 10, 2), (3, -1, 2), 4, 0, 4000),         # two lines per axis
            ((5, 1, 3), (30, 2, 3), 150, 0, 2000),          # traces longer than one z-block (16 bit: 128 samples per block)
-           ((3, 2, 16), (50, -1, 8), 5, 0, 4000)]          # 128 traces: every stored header array is exactly 512 bytes (footer stride boundary)
+           ((3, 2, 16), (50, -1, 8), 5, 0, 4000),          # 128 traces: every stored header array is exactly 512 bytes (footer stride boundary)
+           ((-6, 3, 6), (-4, 4, 5), 12, -16, 4000),        # axes running through 0 (0 not first): lines -6..9, -4..12, samples -16..28 ms
+           ((6, -3, 5), (8, -4, 3), 7, -8, 2000)]          # descending through 0: lines 6..-6, 8,4,0 ; samples -8..4 ms
     nrand = 3 if quick else 24
     for _ in range(nrand):
         def axis():
